@@ -269,6 +269,44 @@ def profile_cli18(rnd, n, thorough, out):
             impl = "error" if (r.exit != 0 and not traffic) else ("ok" if r.exit == 0 else f"exit{r.exit}-traffic")
             out.add(f"partcfg {c if c is not None else '-'} {i if i is not None else '-'}", impl,
                     f"cli18 set={si} cfg count={c} id={i}")
+        # the two options from every combination of sources: flags, SLT_PARTITION_*, the CI system's
+        # variables (imported only as a pair and only when neither SLT variable is set); values that are
+        # not numbers
+        for _ in range(12 if not thorough else 40):
+            def pick(pool):
+                return rnd.choice(pool)
+            src = {
+                "fc": pick([None, None, None, "2", "3", "x"]), "fi": pick([None, None, None, "0", "1", "5"]),
+                "sc": pick([None, None, "2", "3", "0", "+2"]), "si": pick([None, None, "0", "1", "2", "-1"]),
+                "bc": pick([None, "2", "4", "4"]), "bi": pick([None, "0", "1", "3"]),
+            }
+            args, env = list(patterns), {}
+            if src["fc"] is not None:
+                args = ["--partition-count", src["fc"]] + args
+            if src["fi"] is not None:
+                args = ["--partition-id", src["fi"]] + args
+            for k, name in (("sc", "SLT_PARTITION_COUNT"), ("si", "SLT_PARTITION_ID"),
+                            ("bc", "BUILDKITE_PARALLEL_JOB_COUNT"), ("bi", "BUILDKITE_PARALLEL_JOB")):
+                if src[k] is not None:
+                    env[name] = src[k]
+            r = run_cli(cwd, args, env)
+            st = statuses(r.stdout, allf)
+            if r.exit != 0 and not r.events:
+                impl = "error"
+            else:
+                left = {f: len(v) for f, v in st.items()}
+                sel = []
+                for g in globs:
+                    for f in g:
+                        if left.get(f, 0) > 0:
+                            sel.append(f)
+                            left[f] -= 1
+                impl = "sel " + str(len(sel)) + "".join(" " + hx(p) for p in sel)
+            enc = lambda v: "-" if v is None else hx(v)
+            case = "partsrc " + " ".join(enc(src[k]) for k in ("fc", "fi", "sc", "si", "bc", "bi")) + f" {len(globs)}"
+            for g in globs:
+                case += f" {len(g)}" + "".join(" " + hx(p) for p in g)
+            out.add(case, impl, f"cli18 set={si} option sources {src}")
         # a count given through SLT_PARTITION_COUNT alone stays a count without an id, whatever the CI
         # system's own variables say (they are consulted only when neither SLT variable is set)
         r = run_cli(cwd, list(patterns), {"SLT_PARTITION_COUNT": "2", "BUILDKITE_PARALLEL_JOB_COUNT": "2", "BUILDKITE_PARALLEL_JOB": "0"})
